@@ -256,6 +256,7 @@ class Renderer:
 
         if isinstance(secret, dns.tsig.Key):
             key = secret
+            algorithm = key.algorithm
         else:
             key = dns.tsig.Key(keyname, secret, algorithm)
         tsig = _make_tsig(  # pyright: ignore
@@ -288,6 +289,7 @@ class Renderer:
 
         if isinstance(secret, dns.tsig.Key):
             key = secret
+            algorithm = key.algorithm
         else:
             key = dns.tsig.Key(keyname, secret, algorithm)
         tsig = _make_tsig(  # pyright: ignore
